@@ -211,7 +211,9 @@ partial def hazEM (cfg : Config) : Expr → List String
   | .keyword _ _ _ v => hazEM cfg v
   | .boolop _ _ vs => hazEsM cfg vs
   | .unary _ _ e => hazEM cfg e
-  | .binop _ _ l r => hazEM cfg l ++ hazEM cfg r ++ pairsHazM cfg "BinOp" true [("left", l), ("right", r)]
+  | .binop _ op l r =>
+      (if op == "MatMult" && shouldTransform cfg "BinOp" "op" "MatMult" then [H_OPNODE] else [])
+        ++ hazEM cfg l ++ hazEM cfg r ++ pairsHazM cfg "BinOp" true [("left", l), ("right", r)]
   | .compare _ l _ rs => hazEM cfg l ++ hazEsM cfg rs ++ pairsHazM cfg "Compare" true (("left", l) :: tag "comparators" rs)
   | .ifexp _ t b e => hazEM cfg t ++ hazEM cfg b ++ hazEM cfg e
   | .seq _ .set es _ => hazEsM cfg es ++ pairsHazM cfg "Set" true (tag "elts" es)
